@@ -316,6 +316,8 @@ def work(idx):
                 sp += S.inverse_numeric(item.module, rng_s)
             if S.has_sequence_arg(ex):
                 sp += S.long_sequence_stream(item, build_lemmas, rng_s, pick_branch, cfg["seq_lengths"])
+            if any(isinstance(a.value, X.SVec) for a in ex.args):
+                sp += S.curvilinear_stream(item, ex, specs, plan, rng_s, pick_branch)
             sp += S.aliasing_stream(item, ex, specs, plan, rng_s, pick_branch, cfg["order_pairs"] + 1)
             sp += S.ordering_stream(item, ex, specs, plan, rng_s, pick_branch, cfg["order_pairs"])
             sp += S.target_value_stream(item, ex, specs, plan, rng_s, pick_branch)
@@ -541,13 +543,16 @@ def run(ctx):
                 "real_outcome": c.get("real"), "error": c.get("error"), "closed_form_value": c.get("closed_form_value"),
                 "law_value": c.get("law_value"), "residual": c.get("residual"), "comparison": c.get("comparison"),
                 "position": c.get("position"), "vec_len": c.get("lengths"), "seq_len": c.get("length"), "pair": c.get("pair"),
-                "aliased": c.get("aliased"), "case": c.get("case"), "raw_solution": c.get("raw_solution"),
+                "system": c.get("system"), "components_passed": c.get("components_passed"),
+                "result_components": c.get("result_components"), "aliased": c.get("aliased"), "case": c.get("case"), "raw_solution": c.get("raw_solution"),
                 "why": c.get("why"), "theorem_or_tie": f"{stream} tuple (exact arguments) of the numeric tie"}
             what = {"boundary": f"{r['key']} disagrees with its law / closed form on the boundary of `{c.get('comparison')}` "
                         f"({c.get('position')}; equal SI values written in different units)",
                     "mixed-length": f"{r['key']} disagrees with its law function for vector arguments of lengths {c.get('lengths')}",
                     "inverse-mixed-length": f"law functions {c.get('pair')} of {r['key'].rsplit('.', 1)[0]} are not mutual inverses on vectors of different lengths",
                     "long-sequence": f"{r['key']} disagrees with its law for a sequence of {c.get('length')} elements",
+                    "curvilinear": f"{r['key']} called with its vector arguments in {str(c.get('system')).lower()} coordinates: "
+                        f"{c.get('why')}",
                     "aliasing": f"{r['key']} disagrees with its law when the SAME object is passed for the {c.get('aliased')}",
                     "ordering": f"{r['key']} disagrees with its law for {c.get('case')}",
                     "target-value": f"{r['key']} disagrees with its law where the raw solution is {c.get('raw_solution')} "
